@@ -19,7 +19,7 @@ PROP = "C20"
 FORMATS = ["OBJ", "OFF", "STL", "PLY", "VTK", "X3D", "HTML"]
 EXT = {f: f.lower() for f in FORMATS}
 TIERS = {
-    "quick": {"runs": 1600, "chunk": 25, "shrink_cap_s": 40, "max_minimised": 8},
+    "quick": {"runs": 3200, "chunk": 25, "shrink_cap_s": 40, "max_minimised": 8},
     "thorough": {"budget_s": 900, "chunk": 25, "shrink_cap_s": 120, "max_minimised": 16},
     "run_cap_s": 60,
 }
